@@ -1,5 +1,5 @@
 ENGINES = [
-    {"name": "csym", "path": "vt/csym.py", "serves_properties": ["C01", "C02", "C03", "C10", "C13", "C14", "C17", "C18"],
+    {"name": "csym", "path": "vt/csym.py", "serves_properties": ["C01", "C02", "C03", "C10", "C11", "C13", "C14", "C17", "C18"],
      "kind_free_text": "symbolic interpreter of traits/ctraits.c over clang's JSON AST (regenerated from the current source on every run), "
                        "CPython API contracts in vt/capi.py, shared path condition with symx; memory-safety assertions on every path"},
     {"name": "symx", "path": "vt/symx.py", "serves_properties": ["C01", "C03", "C04", "C05", "C06", "C07", "C08", "C09", "C11", "C12", "C16", "C13", "C15", "C17", "C19", "C20"],
@@ -189,6 +189,7 @@ CHECKS["C09"] = dict(
          "feasibility only. Outside: dispatch='ui'/'new', ObserverChangeNotifier counting (it is not counted by design), gc at every "
          "point of a history (three fixed points only).")
 CHECKS["C11"] = dict(
+    engine="symx+csym",
     text="(a) Solver-decided: Delegate.__init__'s prefix classification runs natively on a symbolic prefix string (z3 String, length <= 6): "
          "prefix_type and stored prefix match the documented rule ('' / explicit name / 'p*' / '*') for every string; the classified "
          "definition is replayed on a real object (reads the documented target attribute). (b) Bounded histories (k=2/3) on real objects "
